@@ -8,6 +8,8 @@ Model driver for C18. Line protocol (fields separated by one space; byte strings
         the remotes that answer at all)      answer = M:<uuidhex>:<mthex> | E:<status> | H (hang)
                                              → ok <uuidhex> <mthex> cc=<0|1> fan=<0|1> leak=0
                                              | err <status> cc=<0|1> fan=<0|1> leak=0
+  getseq <cidhex> <n> (<reqhex> <fwdhex> <local> <remotes> <order>){n}   -- n requests through ONE Conn
+                                             → the n `get` results joined by " | "
   legacy <idhex> <expecthex> <pdhfieldhex> <mthex>   -- rewriteSignatures on a 200 record
                                              → ok <mthex> | err invalid-stream|pdh-field|hash
   legacyraw reqerr|status:<code>|badjson     → reqerr | pass <code> | err json
@@ -84,6 +86,27 @@ def parseLOrder (rs : List (Str × Option LegacyReply)) (s : String) : Option (L
     | some (some r) => some (id.toList, r)
     | _ => none)
 
+def getStep (cid : Str) (req fwd loc rems ord : String) : String :=
+  match unhex req, unhex fwd, parseAnswer loc, parseRemotes rems with
+  | some req, some fwd, some loc, some rems =>
+    match parseOrder rems ord with
+    | some order =>
+      let s : Script := { clusterID := cid, req := req, fwd := fwd, loc := loc, remotes := rems, order := order }
+      let tail := " cc=" ++ flag (needsClientCancel md5Str s) ++ " fan=" ++ flag (fansOut md5Str s && !rems.isEmpty) ++ " leak=0"
+      match (collectionGetSeq md5Str [s]).head? with
+      | some (.ok c) => "ok " ++ enhex c.uuid ++ " " ++ enhex c.manifest ++ tail
+      | some (.error st) => "err " ++ toString st ++ tail
+      | none => "bad-op"
+    | none => "bad-op"
+  | _, _, _, _ => "bad-op"
+
+def getSeq (cid : Str) : List String → Option (List String)
+  | [] => some []
+  | req :: fwd :: loc :: rems :: ord :: rest =>
+    let r := getStep cid req fwd loc rems ord
+    if r == "bad-op" then none else (getSeq cid rest).map (r :: ·)
+  | _ => none
+
 def step (line : String) : String :=
   match fields line with
   | ["rw", id, mt] =>
@@ -106,6 +129,14 @@ def step (line : String) : String :=
         | .error st => "err " ++ toString st ++ tail
       | none => "bad-op"
     | _, _, _, _, _ => "bad-op"
+  | "getseq" :: cid :: n :: rest =>
+    match unhex cid, n.toNat? with
+    | some cid, some n =>
+      if n == 0 || rest.length != 5 * n then "bad-op" else
+      match getSeq cid rest with
+      | some rs => " | ".intercalate rs
+      | none => "bad-op"
+    | _, _ => "bad-op"
   | ["legacy", id, expect, field, mt] =>
     match unhex id, unhex expect, unhex field, unhex mt with
     | some id, some expect, some field, some mt =>
